@@ -13,7 +13,8 @@ import (
 
 type scopedReq struct {
 	Args   []string
-	Select int // >= 0 valid SELECT
+	MaySel *int // SELECT with a number the server may accept or refuse (negative, huge): the database moves iff it answers OK
+	Select int  // >= 0 valid SELECT
 	AuthOK bool
 	IsAuth bool
 	Data   bool
@@ -36,6 +37,9 @@ func (sc *scopedConn) modelAt(idx int, pwRequired bool) (db int, authorized bool
 		}
 		if r.Select >= 0 && authorized && ok {
 			db = r.Select
+		}
+		if r.MaySel != nil && authorized && ok {
+			db = *r.MaySel
 		}
 	}
 	return
@@ -138,8 +142,12 @@ func runC13(t *testing.T, tape *sim.Tape, tier string) *Outcome {
 			case k < 3:
 				db := tape.Draw(16, "db")
 				r.Args, r.Select = []string{"SELECT", fmt.Sprint(db)}, db
+			case k == 3 && tape.Draw(2, "maysel") == 1:
+				// numbers a server may refuse or accept: the connection's database changes iff the answer is OK
+				n := []int{-1, -7, 1 << 20, -(1 << 31)}[tape.Draw(4, "mayselval")]
+				r.Args, r.MaySel = []string{"SELECT", fmt.Sprint(n)}, &n
 			case k == 3:
-				r.Args = [][]string{{"SELECT", "abc"}, {"SELECT"}, {"SELECT", ""}, {"SELECT", "1.5"}}[tape.Draw(4, "badselect")]
+				r.Args = [][]string{{"SELECT", "abc"}, {"SELECT"}, {"SELECT", ""}, {"SELECT", "1.5"}, {"SELECT", "99999999999999999999"}, {"SELECT", "-"}}[tape.Draw(6, "badselect")]
 			case k == 4:
 				if tape.Draw(2, "rightpw") == 0 || !pwRequired {
 					r.Args, r.IsAuth, r.AuthOK = []string{"AUTH", pw}, true, pwRequired
@@ -252,7 +260,7 @@ func init() {
 	register(&Check{
 		ID: "C13", Bubble: true, Run: runC13,
 		Runs:   map[string]int{"quick": 16000, "thorough": 500000},
-		Rule:   "a case is one run of the full server (with or without a required password) and 2..8 connections that dial, send 2..10 (thorough ..20) requests over {SELECT valid/invalid/missing, AUTH right/wrong, PING, data commands, CONFIG SET/GET incl. CONFIG SET requirepass when a password is required} and close at seeded moments, interleaved at byte-delivery and handler-entry granularity with a swarm-chosen bias towards staying on one connection; inside every handler call conn.Database(), IsAuthrized(), the per-connection sync.Map token and the *redis.Conn identity are compared with that connection's own history; distinct = distinct (shape, order in which handler calls of the connections interleaved) signatures",
+		Rule:   "a case is one run of the full server (with or without a required password) and 2..8 connections that dial, send 2..10 (thorough ..20) requests over {SELECT valid/invalid/missing/negative/huge (the database moves iff the answer is OK), AUTH right/wrong, PING, data commands, CONFIG SET/GET incl. CONFIG SET requirepass when a password is required} and close at seeded moments, interleaved at byte-delivery and handler-entry granularity with a swarm-chosen bias towards staying on one connection; inside every handler call conn.Database(), IsAuthrized(), the per-connection sync.Map token and the *redis.Conn identity are compared with that connection's own history; distinct = distinct (shape, order in which handler calls of the connections interleaved) signatures",
 		Real:   []string{"redis.Server accept loop, connection goroutines, SELECT/AUTH executors, redis.Conn state, connection registry"},
 		Stub:   []string{"network: simulated", "handler: recording double (parks at entry)"},
 		Assume: []string{"negative database indexes are not generated"},
